@@ -317,6 +317,105 @@ Proof.
          end.
   all: try (repeat split; try reflexivity; try congruence; intros; congruence).
 Qed.
+
+(* ---- request body delivery (C01) and end-of-response (C02) ---- *)
+Fixpoint ends (o : list out) : nat :=
+  match o with
+  | [] => 0%nat
+  | OSend _ EvEndBody :: r => S (ends r)
+  | _ :: r => ends r
+  end.
+Fixpoint bodies (o : list out) : list bytes :=
+  match o with
+  | [] => []
+  | OSend _ (EvBody d) :: r => d :: bodies r
+  | _ :: r => bodies r
+  end.
+
+Ltac exec3 := cbv -[validate_headers mem_version te_trailers suppress_body body_bytes headers_ok forallb link_ok
+                    TRAILERS_VERSIONS PUSH_VERSIONS EARLY_HINTS_VERSIONS map filter app B finals ends bodies Z.leb].
+
+(* every step emits at most one EndBody, only if the response was not already complete, and then
+   the response is complete; nothing but StreamClosed is sent to the protocol afterwards *)
+Lemma step_ends st (m : option amsg) :
+  let '(r', o, res) := rig_step (the_cfg names ssl) (IAppSend m) (mk st) in
+  (ends o <= (match st with HClosed => 0 | _ => 1 end))%nat /\
+  (ends o = 1%nat -> hs_state (rg_stream r') = HClosed) /\
+  (st = HClosed -> hs_state (rg_stream r') = HClosed /\ bodies o = []) /\ shape_kept r'.
+Proof.
+  unfold mk, sc, shape_kept. destruct m as [m|]; [destruct m|]; destruct st; exec3; crunch.
+  all: cbn [ends bodies app].
+  all: repeat split; (lia || congruence || reflexivity || discriminate).
+Qed.
+
+(* a body message in the RESPONSE state hands exactly its bytes to the protocol (nothing when the
+   body must be omitted or is empty) *)
+Lemma step_body d more :
+  has_resp = true -> has_app = true ->
+  let '(r', o, res) := rig_step (the_cfg names ssl) (IAppSend (Some (MBody (HB d) more))) (mk HResponse) in
+  res = Ok tt /\
+  bodies o = (if suppress_body meth status then [] else match d with [] => [] | _ => [d] end) /\
+  hs_state (rg_stream r') = (if more then HResponse else if tr then HTrailers else HClosed) /\
+  ends o = (if more then 0 else if tr then 0 else 1)%nat.
+Proof.
+  intros HR HA. unfold mk, sc. rewrite HR, HA.
+  cbv -[validate_headers mem_version te_trailers suppress_body headers_ok forallb link_ok
+        TRAILERS_VERSIONS PUSH_VERSIONS EARLY_HINTS_VERSIONS map filter app B finals ends bodies Z.leb].
+  crunch; cbn [ends bodies app]; repeat split; reflexivity.
+Qed.
+
+(* request body events reach the application unchanged, one message each *)
+Lemma step_request_body d :
+  has_app = true -> closed = false ->
+  forall st, let '(r', o, res) := rig_step (the_cfg names ssl) (IHandle (EvBody d)) (mk st) in
+  o = [OPut id (RHttpRequest d true)] /\ res = Ok tt /\ r' = mk st.
+Proof. intros HA HC st. unfold mk, sc. rewrite HA, HC. destruct st; exec3; repeat split; reflexivity. Qed.
+
+Lemma step_request_end :
+  has_app = true -> closed = false ->
+  forall st, let '(r', o, res) := rig_step (the_cfg names ssl) (IHandle EvEndBody) (mk st) in
+  o = [OPut id (RHttpRequest [] false)] /\ res = Ok tt /\ r' = mk st.
+Proof. intros HA HC st. unfold mk, sc. rewrite HA, HC. destruct st; exec3; repeat split; reflexivity. Qed.
+
+(* after closure nothing is delivered any more *)
+Lemma step_closed_silent ev :
+  closed = true -> forall st, rig_step (the_cfg names ssl) (IHandle ev) (mk st) = (mk st, [], Ok tt).
+Proof. intros HC st. unfold mk, sc. rewrite HC. destruct st; exec3; reflexivity. Qed.
+
+(* C05: the application ends.  Nothing started: a complete 500 with connection: close, then the
+   stream is closed; otherwise only the stream closure (no end-of-body: the response stays
+   incomplete unless it had been completed) *)
+Lemma step_app_exit st :
+  closed = false -> has_app = true ->
+  let '(r', o, res) := rig_step (the_cfg names ssl) (IAppSend None) (mk st) in
+  res = Ok tt /\
+  match st with
+  | HRequest =>
+      o = [OSend id (EvResponse 500 [(B "content-length", B "0"); (B "connection", B "close")]); OSend id EvEndBody;
+           OLogAccess (Some 500%Z); OSend id EvStreamClosed; OPut id RHttpDisconnect]
+  | HClosed => o = [OSend id EvStreamClosed; OPut id RHttpDisconnect]
+  | _ => o = [OSend id EvStreamClosed; OLogAccess None; OPut id RHttpDisconnect] /\ ends o = 0%nat
+  end.
+Proof. intros HC HA. unfold mk, sc. rewrite HC, HA. destruct st; exec3; repeat split; reflexivity. Qed.
+
+Lemma step_body_more d :
+  has_resp = true -> has_app = true ->
+  rig_step (the_cfg names ssl) (IAppSend (Some (MBody (HB d) true))) (mk HResponse) =
+  (mk HResponse, (if suppress_body meth status then [] else match d with [] => [] | _ => [OSend id (EvBody d)] end), Ok tt).
+Proof.
+  intros HR HA. unfold mk, sc. rewrite HR, HA.
+  cbv -[validate_headers mem_version te_trailers suppress_body headers_ok forallb link_ok
+        TRAILERS_VERSIONS PUSH_VERSIONS EARLY_HINTS_VERSIONS map filter app B finals ends bodies Z.leb].
+  crunch; reflexivity.
+Qed.
+
+Lemma step_handle_quiet st ev : not_request ev ->
+  let '(r', o, res) := rig_step (the_cfg names ssl) (IHandle ev) (mk st) in
+  ends o = 0%nat /\ bodies o = [] /\ finals o = 0%nat /\ hs_state (rg_stream r') = st /\ shape_kept r'.
+Proof.
+  unfold mk, sc, shape_kept. intro NR. destruct ev; try contradiction; destruct st; exec3; crunch.
+  all: cbn [finals ends bodies app]; repeat split; reflexivity.
+Qed.
 End Inv.
 
 (* ---------------------------------------------------------------- general forms *)
@@ -457,4 +556,133 @@ Proof.
     specialize (IH r' _ s' (conj Q1 Q2) S' (conj HA HR)). rewrite X, A in IH. specialize (IH SR B2).
     destruct (run_results (the_cfg names ssl) r' rest) as [l rf]. destruct IH as [I1 I2].
     split; [constructor; assumption|exact I2].
+Qed.
+
+
+(* ---------------------------------------------------------------- C02: end of response, body fidelity *)
+Lemma ends_app a b : ends (a ++ b) = (ends a + ends b)%nat.
+Proof.
+  induction a as [|x r IH]; [reflexivity|]. simpl.
+  destruct x as [i ev|i sc0|i m|st|e|c|w|w]; try exact IH. destruct ev; try exact IH. rewrite IH. reflexivity.
+Qed.
+Lemma bodies_app a b : bodies (a ++ b) = bodies a ++ bodies b.
+Proof.
+  induction a as [|x r IH]; [reflexivity|]. simpl.
+  destruct x as [i ev|i sc0|i m|st|e|c|w|w]; try exact IH. destruct ev; try exact IH. simpl. rewrite IH. reflexivity.
+Qed.
+
+(* end-of-response is signalled at most once, whatever the application sends and however body and
+   closure events interleave *)
+Theorem end_once_from names ssl : forall is r sc0,
+  quiet r -> hs_scope (rg_stream r) = Some sc0 -> drives_ok is ->
+  (ends (run_outs (the_cfg names ssl) r is) <= match hs_state (rg_stream r) with HClosed => 0 | _ => 1 end)%nat.
+Proof.
+  induction is as [|i rest IH]; intros r sc0 Q S D; [simpl; destruct (hs_state (rg_stream r)); lia|].
+  inversion D as [|? ? Di Dr]; subst. simpl.
+  rewrite (quiet_rig_shape r sc0 Q S) at 1.
+  destruct i as [ev|m].
+  - pose proof (step_handle_quiet names ssl (hs_id (rg_stream r)) (hs_closed (rg_stream r)) (hs_has_app (rg_stream r))
+                  (hs_has_response (rg_stream r)) (hs_status (rg_stream r)) (hs_resp_trailers (rg_stream r))
+                  (sc_ws sc0) (sc_version sc0) (sc_method sc0) (sc_scheme sc0) (sc_path sc0) (sc_raw_path sc0) (sc_query sc0)
+                  (sc_headers sc0) (sc_ext_trailers sc0) (sc_ext_push sc0) (sc_ext_hint sc0) (sc_subprotocols sc0)
+                  (hs_state (rg_stream r)) ev Di) as H.
+    destruct (rig_step _ _ _) as [[r' o] res]. destruct H as (E & _ & _ & St & Q1 & Q2 & S').
+    rewrite ends_app, E. simpl. rewrite <- St. eapply IH; [split; eassumption|exact S'|exact Dr].
+  - pose proof (step_ends names ssl (hs_id (rg_stream r)) (hs_closed (rg_stream r)) (hs_has_app (rg_stream r))
+                  (hs_has_response (rg_stream r)) (hs_status (rg_stream r)) (hs_resp_trailers (rg_stream r))
+                  (sc_ws sc0) (sc_version sc0) (sc_method sc0) (sc_scheme sc0) (sc_path sc0) (sc_raw_path sc0) (sc_query sc0)
+                  (sc_headers sc0) (sc_ext_trailers sc0) (sc_ext_push sc0) (sc_ext_hint sc0) (sc_subprotocols sc0)
+                  (hs_state (rg_stream r)) m) as H.
+    destruct (rig_step _ _ _) as [[r' o] res]. destruct H as (F & F1 & St & Q1 & Q2 & S').
+    rewrite ends_app.
+    assert (IHr := IH r' _ (conj Q1 Q2) S' Dr).
+    destruct (hs_state (rg_stream r)) eqn:E.
+    + destruct (hs_state (rg_stream r')) eqn:E'; try lia;
+        (assert (ends o <> 1%nat) by (intro X; apply F1 in X; congruence)); lia.
+    + destruct (hs_state (rg_stream r')) eqn:E'; try lia;
+        (assert (ends o <> 1%nat) by (intro X; apply F1 in X; congruence)); lia.
+    + destruct (hs_state (rg_stream r')) eqn:E'; try lia;
+        (assert (ends o <> 1%nat) by (intro X; apply F1 in X; congruence)); lia.
+    + destruct (St eq_refl) as [St' _]. rewrite St' in IHr. lia.
+Qed.
+
+(* the chunks of a streamed body reach the protocol in order and unchanged; empty chunks send nothing *)
+Fixpoint nonempty (l : list bytes) : list bytes :=
+  match l with [] => [] | [] :: r => nonempty r | d :: r => d :: nonempty r end.
+Lemma concat_nonempty l : concat (nonempty l) = concat l.
+Proof. induction l as [|d r IH]; [reflexivity|]. destruct d; simpl; rewrite IH; reflexivity. Qed.
+
+Theorem body_chunks_in_order names ssl id closed status tr ws ver meth scheme spath raw query rhs x1 x2 x3 subs : forall ds,
+  bodies (run_outs (the_cfg names ssl)
+            (mk id closed true true status tr ws ver meth scheme spath raw query rhs x1 x2 x3 subs HResponse)
+            (map (fun d => IAppSend (Some (MBody (HB d) true))) ds)) =
+  (if suppress_body meth status then [] else nonempty ds).
+Proof.
+  induction ds as [|d rest IH].
+  - simpl. destruct (suppress_body meth status); reflexivity.
+  - cbn [map run_outs].
+    rewrite (step_body_more names ssl id closed true true status tr ws ver meth scheme spath raw query rhs x1 x2 x3 subs d eq_refl eq_refl).
+    cbv beta iota zeta. rewrite bodies_app, IH.
+    destruct (suppress_body meth status); [reflexivity|]. destruct d; reflexivity.
+Qed.
+
+(* ---------------------------------------------------------------- C01: scope and request body *)
+Lemma make_scope_spec names ssl hs version method raw sc :
+  make_scope (the_cfg names ssl) hs version method raw = Ok sc ->
+  let '(path, found, query) := partition1 63 raw in
+  is_ascii path = true /\ mem_byte 63 path = false /\
+  raw = path ++ (if found then 63 :: query else []) /\
+  sc_raw_path sc = path /\ sc_query sc = query /\ sc_path sc = pct_decode path /\
+  sc_method sc = method /\ sc_version sc = version /\ sc_headers sc = hs /\ sc_ws sc = false /\
+  sc_scheme sc = (if ssl then B "https" else B "http").
+Proof.
+  unfold make_scope. pose proof (partition1_spec 63 raw) as P.
+  destruct (partition1 63 raw) as [[path found] query]. destruct P as (P1 & P2 & _).
+  destruct (is_ascii path) eqn:A; cbn [negb]; [|discriminate].
+  intro H. injection H as <-. cbn. repeat split; assumption || reflexivity.
+Qed.
+
+(* exactly one application instance per request, with that scope; an unknown server name is
+   answered 404 without an application; a non-ASCII path is refused before anything happens *)
+Lemma request_outcome names ssl id hs version method raw :
+  let '(r', o, res) := rig_step (the_cfg names ssl) (IHandle (EvRequest hs version method raw)) (new_rig id [] true) in
+  match make_scope (the_cfg names ssl) hs version method raw with
+  | Raise e => o = [] /\ res = Raise e
+  | Ok sc =>
+      if valid_server_name (the_cfg names ssl) hs
+      then o = [OSpawn id sc] /\ res = Ok tt /\ hs_has_app (rg_stream r') = true /\ hs_scope (rg_stream r') = Some sc
+      else o = [OSend id (EvResponse 404 [(B "content-length", B "0"); (B "connection", B "close")]); OSend id EvEndBody; OLogAccess (Some 404%Z)]
+           /\ hs_closed (rg_stream r') = true /\ hs_has_app (rg_stream r') = false
+  end.
+Proof.
+  unfold new_rig, new_hstream.
+  cbv -[make_scope valid_server_name B].
+  destruct (make_scope _ hs version method raw) as [sc|e]; [|split; reflexivity].
+  destruct (valid_server_name _ hs); repeat split; reflexivity.
+Qed.
+
+Lemma pct_decode_plain b : mem_byte 37 b = false -> pct_decode b = b.
+Proof.
+  induction b as [|c r IH]; [reflexivity|]. cbn [mem_byte]. intro H. apply orb_false_iff in H as [H1 H2].
+  cbn [pct_decode]. rewrite H1, IH by exact H2. reflexivity.
+Qed.
+
+(* percent-decoding inverts percent-encoding of every byte *)
+Definition hexd (n : N) : N := if n <? 10 then 48 + n else 55 + n.
+Definition quote1 (c : N) : bytes := [37; hexd (c / 16); hexd (c mod 16)].
+Lemma hex_val_hexd n : n < 16 -> hex_val (hexd n) = Some n.
+Proof.
+  intro H. assert (E : n = 0 \/ n = 1 \/ n = 2 \/ n = 3 \/ n = 4 \/ n = 5 \/ n = 6 \/ n = 7 \/ n = 8 \/ n = 9 \/ n = 10 \/ n = 11 \/
+                      n = 12 \/ n = 13 \/ n = 14 \/ n = 15) by lia.
+  repeat (destruct E as [->|E]; [reflexivity|]). subst. reflexivity.
+Qed.
+Lemma pct_decode_quote bs : Forall (fun c => c < 256) bs -> pct_decode (flat_map quote1 bs) = bs.
+Proof.
+  induction bs as [|c r IH]; intro F; [reflexivity|]. inversion F as [|? ? Hc Fr]; subst.
+  cbn [flat_map quote1 app pct_decode]. cbn [N.eqb Pos.eqb].
+  assert (H1 : c / 16 < 16) by (apply N.div_lt_upper_bound; lia).
+  assert (H2 : c mod 16 < 16) by (apply N.mod_lt; lia).
+  change (37 =? 37) with true. cbv iota.
+  rewrite (hex_val_hexd _ H1), (hex_val_hexd _ H2), IH by exact Fr.
+  f_equal. pose proof (N.div_mod c 16). lia.
 Qed.
